@@ -253,3 +253,92 @@ PROPS['C03'] = {
                    'the five command-line tools (process exit status) are outside the encoding.',
     'assumptions': DEC_ASSUME + ['inet_ntop: reads exactly 4/16 bytes at src, writes a NUL-terminated string shorter than size, or fails', 'strlen: loop model'],
 }
+
+
+# ------------------------------------------------------------------------------------------ U4/U5 schema code at item level (L2)
+def _mangled(ns_name):
+    return '%d%s' % (len(ns_name), ns_name)
+
+
+BLK_STUBBED = ['Timestamp', 'ResponseProcessingData', 'QueryResponseExtended', 'StorageHints', 'StorageParameters', 'CollectionParameters', 'BlockParameters']
+BLK_REDIRECT = tuple(['_ZN4CDNS%s5writeERNS_11CdnsEncoderE=stubw_%s@cdns' % (_mangled(t), t) for t in BLK_STUBBED] +
+                     ['_ZN4CDNS%s4readERNS_11CdnsDecoderE=stubr_%s@cdns' % (_mangled(t), t) for t in BLK_STUBBED] +
+                     ['_ZN4CDNS9Timestamp15get_time_offsetERKS0_m=stub_get_time_offset@cdns'])
+BLK_W = ['classtype', 'question', 'rr', 'qrsig', 'mmd', 'rpd', 'qre', 'blockpreamble', 'blockstatistics', 'aec', 'storagehints', 'storageparameters',
+         'collectionparameters', 'blockparameters', 'queryresponse', 'malformedmessage', 'timestamp', 'stringitem', 'indexlist']
+BLK_R = ['classtype', 'question', 'rr', 'qrsig', 'mmd', 'rpd', 'qre', 'blockpreamble', 'blockstatistics', 'aec', 'storagehints', 'storageparameters',
+         'collectionparameters', 'blockparameters', 'queryresponse', 'malformedmessage', 'timestamp', 'indexlist']
+BLK_PREAMBLE = {'storagehints', 'storageparameters', 'collectionparameters', 'blockparameters'}
+BLK_FUNCS = ['<X>::write / <X>::read for X in ClassType, Question, RR, QueryResponseSignature, MalformedMessageData, ResponseProcessingData, QueryResponseExtended, BlockPreamble, '
+             'BlockStatistics, AddressEventCount, StorageHints, StorageParameters, CollectionParameters, BlockParameters, QueryResponse, MalformedMessage, Timestamp, StringItem, IndexListItem',
+             'CdnsDecoder::read_array (cdns_decoder.h)']
+BLK_ASSUME = ['CdnsEncoder / CdnsDecoder replaced by the item-level token model with exactly the L1 contract that C06/C07 establish for the real codec (harness/tok_model.h)',
+              'nested <Y>::write / <Y>::read calls and Timestamp::get_time_offset replaced by their contract (exactly one tagged item / arbitrary offset with recorded arguments); each nested type has its own obligation',
+              'reference schema (RFC 8618 key numbers and value kinds) written out in harness/blk.cpp independently of format_specification.h',
+              'list members have concrete lengths 0..2 per run (strings <= 3 bytes); maps in the symbolic-order reader obligations have <= BLK_MAXM members incl. <= 2 unknown ones',
+              'compiled with -fno-inline so that nested calls stay calls']
+
+
+def blk_obl(kind, name, tiers=('quick', 'thorough'), maxm=3, timeout=900):
+    d = ['BLK_MAXM=%d' % maxm]
+    us = {r'4readERNS_11CdnsDecoderE|10read_arrayE': maxm + 2} if kind == 'r' else ()
+    return Obl('%s_%s%s' % (kind, name, '' if kind == 'w' else '_m%d' % maxm), 'blk.cpp', 'noctor:h_%s_%s' % (kind, name), unwind=24, defines=d, tiers=tiers, timeout=timeout,
+               redirect=BLK_REDIRECT, opt='-O1 -fno-inline', mem_gb=16, unwindset=us, extra=('--no-array-field-sensitivity',),
+               desc=('write(): one well-formed item, returned size == bytes produced, item == RFC 8618 encoding (all presence subsets, full-width integers)' if kind == 'w' else
+                     'read(): reference encoding with members in any order, definite/indefinite, <= 2 unknown members, symbolic cut point: exact value back / CdnsDecoderEnd'),
+               bounds={'members per map (reader)': '<= %d' % maxm, 'strings': '<= 3 bytes', 'lists': '0..2 entries', 'integers': 'full declared width'}, functions=BLK_FUNCS)
+
+
+BLK_MIN_M = {'storagehints': 4, 'storageparameters': 6, 'aec': 4}      # structures with more mandatory members than the default bound
+BLK_BIG = {'qrsig', 'queryresponse', 'collectionparameters', 'blockstatistics'}    # many cases per loop iteration: smaller member bound in the quick tier
+
+
+def blk_set(kinds, names):
+    out = []
+    for k in kinds:
+        for n in names:
+            if k == 'w' and n in BLK_W:
+                out.append(blk_obl('w', n))
+            if k == 'r' and n in BLK_R:
+                if n == 'storageparameters':
+                    out.append(blk_obl('r', n, tiers=('thorough',), maxm=6, timeout=5400))
+                elif n in BLK_BIG:
+                    out.append(blk_obl('r', n, tiers=('quick',), maxm=2, timeout=900))
+                    out.append(blk_obl('r', n, tiers=('thorough',), maxm=4, timeout=5400))
+                else:
+                    m = BLK_MIN_M.get(n, 3)
+                    out.append(blk_obl('r', n, tiers=('quick',), maxm=m, timeout=900))
+                    out.append(blk_obl('r', n, tiers=('thorough',), maxm=m + 2, timeout=5400))
+    return out
+
+
+BLK_BLOCK = [n for n in BLK_W if n not in BLK_PREAMBLE]
+PROPS['C02'] = {
+    'obligations': blk_set('w', BLK_W),
+    'explanation': 'Obl-W: every *::write of the schema code is executed on a symbolic structure (every optional independently present or absent, including structures with no member set and empty lists) '
+                   'against the item acceptor: exactly one item, declared length == members present, every key followed by one value. The document-level automaton of the exporter is the exporter obligation (pending).',
+    'assumptions': BLK_ASSUME,
+}
+PROPS['C10'] = {
+    'obligations': blk_set('w', BLK_W) + [o for o in enc_obls('C10') if 'bs9' in o.name and ('_u64_' in o.name or '_i64_' in o.name or 'array_start' in o.name or 'bytestring_bs9_len' in o.name)],
+    'explanation': 'L1: each encoder operation returns the bytes it appended (C06 harness, second assertion). L2: with the encoder returning an arbitrary positive size per call, every *::write returns exactly the sum '
+                   '(a dropped or doubled "written +=" is a counterexample). Exporter-level sums: exporter obligation (pending).',
+    'assumptions': BLK_ASSUME,
+}
+PROPS['C09'] = {
+    'obligations': blk_set('wr', sorted(BLK_PREAMBLE)),
+    'explanation': 'Preamble structures: write() == reference encoding and read(reference encoding) == value, member for member including presence and list order; FilePreamble itself: pending.',
+    'assumptions': BLK_ASSUME,
+}
+PROPS['C08'] = {
+    'obligations': blk_set('r', BLK_R),
+    'explanation': 'Every map reader is run on the reference encoding of a symbolic value with the members delivered in an arbitrary order (symbolic permutation), in definite or indefinite form, with up to two unknown '
+                   'members carrying opaque values, and must return exactly the known members. Byte-level rewrites (head widths, chunked strings) are C07.',
+    'assumptions': BLK_ASSUME,
+}
+PROPS['C01'] = {
+    'obligations': blk_set('wr', BLK_BLOCK),
+    'explanation': 'Compositional: L1 = C06 + C07 (bytes <-> items), L2 = per structure write() == RFC 8618 reference encoding and read(reference encoding) == value (this check), time offsets: data flow here, arithmetic C17. '
+                   'Block-level composition (tables, arrays of items, generic records): pending obligations.',
+    'assumptions': BLK_ASSUME,
+}
